@@ -1077,7 +1077,7 @@ class C18Executor(Executor):
     def sym_comp(self, n, elt, st):
         """Comprehension `elt for x in SEQ [if c ...]` over a symbolic sequence -> (state, seq, elem(j), keep(j)) or None.
         The element and the conditions must evaluate without forking or raising."""
-        if len(n.generators) != 1 or not isinstance(n.generators[0].target, ast_Name):
+        if len(n.generators) != 1:
             return None
         g = n.generators[0]
         its = self.ev(g.iter, st.fork())
@@ -1091,7 +1091,10 @@ class C18Executor(Executor):
         s2.frames.append(fr)
         mark = len(self.sinks[-1])
         pclen = len(s2.pc)
-        s2.bind(g.target.id, seq.elem(i))
+        bound = self.assign(g.target, seq.elem(i), s2)       # plain name or tuple target (`for k, v in d.items()`)
+        if len(bound) != 1 or len(self.sinks[-1]) != mark:
+            self.unsupported(n, "comprehension target does not bind uniquely")
+        s2 = bound[0]
         keep = []
         for cnd in g.ifs:
             rc = self.ev(cnd, s2)
@@ -1125,6 +1128,19 @@ class C18Executor(Executor):
                 return [(s3, VSeq(seq.length, elem, kind))]
             return [(s3, VSymBag(seq.length, elem, keep))]
         return super().e_ListComp(n, st)
+
+    def e_DictComp(self, n, st):
+        """{k: v for ... in SEQ if c} over a symbolic sequence: key, value and conditions are evaluated (they must neither fork
+        nor raise); the result is a fresh dict whose content is not tracked (heap kind `unk`: reading from it is an unmodelled,
+        tagged operation).  The listing contracts never look into such dicts (custom columns)."""
+        pair = _ast.Tuple(elts=[n.key, n.value], ctx=_ast.Load())
+        _ast.copy_location(pair, n)
+        _ast.fix_missing_locations(pair)
+        r = self.sym_comp(n, pair, st)
+        if r is not None:
+            s3 = r[0]
+            return [(s3, VRef(s3.alloc(HeapObj("unk", None, "dict", True), self.refs)))]
+        return super().e_DictComp(n, st)
 
     def e_SetComp(self, n, st):
         r = self.sym_comp(n, n.elt, st)
